@@ -138,9 +138,11 @@ class Ctx:
         args += list(extra_args)
         args.append(module + ".tla")
         t0 = time.time()
+        # a deep Java stack: TLC evaluates large function / set constructors recursively
+        tenv = dict(os.environ, JAVA_TOOL_OPTIONS=(os.environ.get("JAVA_TOOL_OPTIONS", "") + " -Xss512m").strip())
         with open(outp, "w") as fo:
             try:
-                r = subprocess.run(args, cwd=wd, stdout=fo, stderr=subprocess.STDOUT, timeout=timeout)
+                r = subprocess.run(args, cwd=wd, stdout=fo, stderr=subprocess.STDOUT, timeout=timeout, env=tenv)
                 rc = r.returncode
             except subprocess.TimeoutExpired:
                 subprocess.run(["pkill", "-f", "tlc2.TL[C].*" + re.escape(wd)])
